@@ -96,6 +96,9 @@ def _private_probe():
     return _PRIVATE_EXE
 
 
+FRESH_PROCESS_OPS = ("scenario", "sched")
+
+
 class Worker:
     def __init__(self, exe=None, env_extra=None):
         self.exe = exe or private_probe()
@@ -109,6 +112,7 @@ class Worker:
         self.p = subprocess.Popen([self.exe], stdin=subprocess.PIPE, stdout=subprocess.PIPE,
                                   stderr=subprocess.DEVNULL, env=env, cwd=scratch())
         self.buf = b""
+        self.used = False
 
     def kill(self):
         try:
@@ -125,6 +129,12 @@ class Worker:
             self.kill()
 
     def call(self, req, timeout=60.0):
+        # one scenario = one daemon process: a scenario (or scheduled run) never inherits process-wide state (statics, caches,
+        # thread-locals) from a scenario executed earlier by the same worker.  Respawning costs about 4 ms.
+        if req.get("op") in FRESH_PROCESS_OPS and self.used:
+            self.kill()
+            self.spawn()
+        self.used = True
         if self.p.poll() is not None:
             self.spawn()
         try:
